@@ -1057,6 +1057,14 @@ fn late_faults(t: &Tpl) -> Vec<(String, String, bool)> {
             format!("{r} = offsetof(l);\nl:"), format!("{r} = {r} + offsetof(nowhere);"), format!("~ins_509();\n    {f} = ({f} + 1.0) * (({f} + 2.0) * ({f} + 3.0));"), format!("~ins_130(1);\n    {f} = ({f} + 1.0) * (({f} + 2.0) * ({f} + 3.0));"),
             format!("~$REG[99999] = {r};"), format!("{r} = $REG[99999] + 1;"), format!("int a = {r};\n    {{ int a = a + 1; {r} = a; }}\n    {r} = a;"), format!("int a = {r};\n    goto l;\n    {{ int b = 1;\nl:\n    {r} = b; }}"),
         ] { b(&st); }
+        // several difficulty switches of different lengths in one statement, in either order (the length check guards an index)
+        let sw = |n: usize| format!("({})", (1..=n).map(|k| k.to_string()).collect::<Vec<_>>().join(":"));
+        for x in 2..=5usize { for y in 2..=5usize {
+            if x == y { continue; }
+            b(&format!("{r} = {} + {};", sw(x), sw(y)));
+            b(&format!("ins_2002({}, {});", sw(x), sw(y)));
+            for z in 2..=4usize { if z != x && z != y && x < 5 && y < 5 { b(&format!("ins_2002({}, {} + {});", sw(x), sw(y), sw(z))); } }
+        }}
     }
     // file-level faults
     let mut i = |items: &str| v.push(("ins_2004();".to_string(), items.trim_start_matches('~').to_string(), items.starts_with('~')));
